@@ -23,6 +23,8 @@ type c08Ev struct {
 }
 
 type c08Conn struct {
+	wdeadline        time.Time // write deadline as last set (SetWriteDeadline / SetDeadline)
+	timeoutsOnWrites int       // read timeouts whose deadline was armed on the write side too
 	mu       sync.Mutex
 	evs      []c08Ev
 	tail     error
@@ -106,6 +108,11 @@ func (c *c08Conn) Read(p []byte) (int, error) {
 				c.mu.Lock()
 			}
 			c.timeouts++
+			if !c.wdeadline.IsZero() && c.wdeadline.Equal(c.deadline) {
+				// the deadline that just expired for this read was armed for writes as well: a write in progress at this
+				// instant (the sending goroutine of the same query) fails with it
+				c.timeoutsOnWrites++
+			}
 			return 0, &net.OpError{Op: "read", Net: "c08", Addr: c08Addr{}, Err: c08TimeoutErr{}}
 		}
 		if len(ev.data) == 0 {
@@ -150,6 +157,9 @@ func (c *c08Conn) Close() error {
 func (c *c08Conn) LocalAddr() net.Addr  { return c08Addr{} }
 func (c *c08Conn) RemoteAddr() net.Addr { return c08Addr{} }
 func (c *c08Conn) SetDeadline(t time.Time) error {
+	c.mu.Lock()
+	c.wdeadline = t
+	c.mu.Unlock()
 	return c.SetReadDeadline(t)
 }
 func (c *c08Conn) SetReadDeadline(t time.Time) error {
@@ -158,7 +168,12 @@ func (c *c08Conn) SetReadDeadline(t time.Time) error {
 	c.deadline = t
 	return nil
 }
-func (c *c08Conn) SetWriteDeadline(time.Time) error { return nil }
+func (c *c08Conn) SetWriteDeadline(t time.Time) error {
+	c.mu.Lock()
+	c.wdeadline = t
+	c.mu.Unlock()
+	return nil
+}
 
 // remaining: bytes not yet handed to the reader
 func (c *c08Conn) remaining() int {
